@@ -637,6 +637,12 @@ func (s *Store) Open() (retErr error) {
 		if !fsutil.PathExists(s.cleanSnapshotPath) {
 			return nil
 		}
+		if fsutil.PathExists(s.peersPath) {
+			// Node recovery is about to replace the snapshot this SQLite file was
+			// fingerprinted against with one that also holds the log entries after
+			// it, so the database must be rebuilt from that new snapshot.
+			return nil
+		}
 		fp := &FileFingerprint{}
 		if err := fp.ReadFromFile(s.cleanSnapshotPath); err != nil {
 			s.logger.Printf("failed to read clean snapshot (%s), performing full restore", err)
